@@ -6,6 +6,9 @@ CONSTANTS
   AllowCancel = FALSE
   AllowUserClose = FALSE
   AllowEarlyEnd = FALSE
+  MaxRenew = 0
+  FixRenew = TRUE
+  RenewModes = {FALSE}
   ErrorOnce = TRUE
 VIEW View
 INVARIANTS PrefixOfExpected ExactRowsAtEOF FragmentsConcatenate ErrorOnceThenEOF NoLeakedRegionScanner ClosedMeansNoCurrent
